@@ -104,7 +104,10 @@ void build_ratios(bool thorough) {
   add(1 - std::ldexp(1.0, -53));
   for (double r : {1.0, std::nextafter(1.0, 2.0), 1 + 1e-9, 1.5, 2.0, 4294967295.0, 4294967296.0, 1.8446744073709552e19, 1e300, DBL_MAX, INF}) add(r);
   if (thorough) {
-    // thorough tier: additionally both neighbours and second neighbours of every finite ratio
+    // thorough tier: a grid k/64 and the powers of ten, then additionally both neighbours and second
+    // neighbours of every finite ratio
+    for (int k = 1; k < 64; ++k) add(k / 64.0);
+    for (int k = 1; k <= 19; ++k) add(std::pow(10.0, -k));
     size_t n = R.size();
     for (size_t i = 0; i < n; ++i) {
       if (!std::isfinite(R[i])) continue;
@@ -125,7 +128,8 @@ void build_ids(bool thorough) {
                              0x00000000ffffffffull, 0x0000000100000000ull, 0xffffffff00000000ull, 0x0123456789abcdefull};
   std::vector<uint64_t> boundary(g_ratios.size(), 0);
   std::vector<int> kind(g_ratios.size(), 0);
-  const int64_t offs[] = {-4096, -2048, -1024, -2, -1, 0, 1, 2, 1024, 2048, 4096};
+  std::vector<int64_t> offs = {-4096, -2048, -1024, -2, -1, 0, 1, 2, 1024, 2048, 4096};
+  if (thorough) for (int64_t d : {3, 4, 512, 8192, 65536, 1 << 20}) { offs.push_back(d); offs.push_back(-d); }
   for (size_t i = 0; i < g_ratios.size(); ++i) {
     sdk::TraceIdRatioBasedSampler s(g_ratios[i]);
     if (!sampled(s, 0)) { kind[i] = -1; continue; }
@@ -408,13 +412,17 @@ void run_parent(vf::Ctx &c) {
           int consulted = rec->calls - before;
           auto where = [&]() { return "ParentBased{" + delegate_name + "} with " + p.name + " id " + idname(prefix, 0) + vf::sfmt(" name#%zu kind#%zu", ni, ki); };
           if (valid) {
-            Decision want = (kFlags[p.flags_i] & 1) ? Decision::RECORD_AND_SAMPLE : Decision::DROP;
-            if (res.decision != want) c.fail("C12:parent:decision-differs-from-parent", where() + ": decision " + dname(res.decision) + ", the parent's sampled flag asks for " + dname(want));
+            // "exactly the parent's sampled decision": sampled iff the parent is (RECORD_ONLY for an
+            // unsampled parent would still agree with the statement)
+            bool want_sampled = (kFlags[p.flags_i] & 1) != 0;
+            if ((res.decision == Decision::RECORD_AND_SAMPLE) != want_sampled)
+              c.fail("C12:parent:decision-differs-from-parent", where() + ": decision " + dname(res.decision) + vf::sfmt(", the parent's sampled flag is %d", (int)want_sampled));
             if (!(res.trace_state == p.state) && state_header(res.trace_state) != state_header(p.state))
               c.fail("C12:parent:trace-state-differs-from-parent", where() + ": trace state " + state_header(res.trace_state) + ", the parent's is " + state_header(p.state));
             if (consulted != 0) c.fail("C12:parent:delegate-consulted-with-valid-parent", where() + vf::sfmt(": the delegate was consulted %d times", consulted));
           } else {
-            if (consulted != 1) c.fail("C12:parent:delegate-not-consulted-once", where() + vf::sfmt(": the delegate was consulted %d times for a span without a valid parent", consulted));
+            if (consulted < 1) c.fail("C12:parent:delegate-not-consulted", where() + ": the delegate was not consulted for a span without a valid parent");
+            if (consulted > 1) c.counted("delegate_consulted_more_than_once");
             bool same_args = rec->parent && *rec->parent == p.ctx && rec->parent->IsRemote() == p.ctx.IsRemote() && rec->parent->trace_state() == p.ctx.trace_state() && rec->id == id &&
                              rec->name == V.names[ni] && rec->kind == V.kinds[ki] && rec->attrs == &attrs && rec->links == &links;
             if (!same_args) c.fail("C12:parent:delegate-arguments-changed", where() + ": the delegate saw different arguments than the caller passed");
@@ -502,7 +510,8 @@ void run_tracer(vf::Ctx &c) {
   if (interior.empty())
     for (size_t i = 0; i < g_ratios.size(); ++i) if (g_boundary_of_ratio[i] >= 0) interior.push_back((int)i);
   int si = c.pick("sampler", kTracerSamplers);
-  int ri = (si <= 1) ? interior[c.pick("ratio", (int)interior.size())] : -1;
+  // (no interior boundary at all can only happen on a broken sampler: fall back to the fixed ids)
+  int ri = (si <= 1 && !interior.empty()) ? interior[c.pick("ratio", (int)interior.size())] : -1;
   int pcode = c.pick("parent", kParents);
   double ratio = ri >= 0 ? g_ratios[ri] : 0.5;
   c.stage("tracer.setup");
